@@ -64,6 +64,63 @@ def run(chk, facts_dir, tier):
                      % (kind, len(reach)), b, t["line"])
     chk.floor("R6.1", n, 3)
 
+    # ---------------- R6.3: a sealed index that cannot be loaded is never silently dropped
+    chk.rule("R6.3", "NO SILENT DROP: the Err of Closed*Index::open in DatabaseBuilder::open is propagated (or handled by a rebuild); it is never turned into "
+                     "`None` (Result::ok / unwrap_or* / is_ok), which would open the database with the sealed segment's events unfindable")
+    DISCARD = ("Result::<T, E>::ok", "Result::<T, E>::unwrap_or_default", "Result::<T, E>::unwrap_or", "Result::<T, E>::unwrap_or_else",
+               "Result::<T, E>::is_ok", "Result::<T, E>::is_err", "Result::<T, E>::map_or", "Result::<T, E>::map_or_else", "Result::<T, E>::into_iter",
+               "Result::<T, E>::iter")
+    from ..gate import Classifier
+    cls = Classifier(prog, lambda t: False, lambda t: False)
+    for kind, (opener, openidx) in KINDS.items():
+        bad = None
+        for b in fam:
+            ev = Ev(prog, b)
+            for bi, t in b.calls():
+                c = b.callee_decl(t) or ""
+                if any(c.endswith(d) for d in DISCARD) and t["args"]:
+                    term = ev.operand(t["args"][0], (bi, "T"))
+                    if cls.deep(term, lambda x: isinstance(x, tuple) and x and x[0] == "call" and x[1] == opener):
+                        bad = (b, t)
+            # Option::and_then(path, |p| open(p).ok()) : the discard sits inside the closure with the open call
+            if calls(b, opener):
+                for bi, t in b.calls():
+                    c = b.callee_decl(t) or ""
+                    if any(c.endswith(d) for d in DISCARD):
+                        term = ev.operand(t["args"][0], (bi, "T"))
+                        if any(isinstance(x, tuple) and x and x[0] == "call" and x[1] == opener for x in walk(term)):
+                            bad = (b, t)
+        if bad:
+            chk.fail("R6.3", DBOPEN, "index-error-swallowed:" + kind, "a failure to load the sealed segment's %s index is discarded (%s): the database opens, but every event of "
+                     "that segment is silently missing from lookups and the next append reuses its sequences" % (kind, (bad[0].callee_decl(bad[1]) or "").split("::")[-1]), bad[0], bad[1]["line"])
+        else:
+            chk.ok("R6.3", "%s index load errors are not discarded" % kind, ob.where())
+
+    # ---------------- R6.4: sibling agreement of the index files' open modes
+    chk.rule("R6.4", "SIBLING: all six Open*Index::{create,open} constructors open the index file readable and writable; the handle is later used for "
+                     "positional reads by the Closed*Index")
+    n_open = 0
+    for kind, (opener, openidx) in KINDS.items():
+        for ctor in ("create", "open"):
+            b = prog.bodies.get(openidx + "::" + ctor)
+            if b is None:
+                raise Inconclusive("%s::%s not found" % (openidx, ctor))
+            chk.analysed(b.path)
+            ev = Ev(prog, b)
+            modes = {}
+            for bi, t in b.calls():
+                c = b.callee_decl(t) or ""
+                if c in ("std::fs::OpenOptions::read", "std::fs::OpenOptions::write"):
+                    v = strip(ev.operand(t["args"][1], (bi, "T")))
+                    modes[c.rsplit("::", 1)[-1]] = v[1] if v[0] == "const" else "?"
+            n_open += 1
+            if modes.get("read") == "const true" and modes.get("write") == "const true" or (modes.get("read") == "true" and modes.get("write") == "true"):
+                chk.ok("R6.4", "%s::%s opens read+write" % (openidx.split("::")[-1], ctor), b.where())
+            else:
+                chk.fail("R6.4", b.path, "index-file-mode", "the index file is opened with %s while its siblings use read(true).write(true): lookups through the closed index "
+                         "fail with EBADF once the in-memory map has been flushed" % modes, b)
+    chk.floor("R6.4", n_open, 6)
+
     # ---------------- R6.2
     for kind, (opener, openidx) in KINDS.items():
         close = openidx + "::close"
